@@ -635,8 +635,14 @@ namespace occa {
           break;
         }
 
+        // The ternary operator groups from the right:
+        //   a ? b : c ? d : e  is  a ? b : (c ? d : e)
+        const bool nestedTernary = ((op.opType & operatorType::questionMark) &&
+                                    (prevOp.opType & operatorType::colon));
+
         if ((op.precedence > prevOp.precedence) ||
             ((op.precedence == prevOp.precedence) &&
+             !nestedTernary &&
              op::associativity[prevOp.precedence] == op::leftAssociative)) {
 
           applyOperator(state.popOperator());
